@@ -47,6 +47,8 @@ class Builder:
                     if kind == "S" or name not in tgt:
                         tgt[name] = v
         alg = self.key[1] if self.key else 0
+        if s and s.get("pick_key"):
+            alg = s["pick_alg"]        # the callback selected key and alg for this one token
         if alg != 0:
             H.setdefault("typ", "JWT")
         H["alg"] = ALGN[alg]
@@ -146,7 +148,7 @@ def judge(path, octkeys):
                     viol("builder-snapshot-unreadable", "snapshot not JSON", ev)
                 H, P, alg = b.expected(now)
                 must_fail = bool(b.script and (b.script["ret"] or b.script["pick_pub"]))
-                out["distinct"].add((alg, b.iat, b.exp is not None, b.nbf is not None, "typ" in b.h, "alg" in b.h, bool(b.script),
+                out["distinct"].add((alg, b.iat, b.exp is not None, b.nbf is not None, "typ" in b.h, "alg" in b.h, bool(b.script), bool(b.script and b.script.get("pick_key")),
                                      must_fail, tok is None, any(k in b.c for k in ("iat", "nbf", "exp"))))
                 if tok is None:
                     cnt("null_tokens")
@@ -186,7 +188,7 @@ def judge(path, octkeys):
                 else:
                     if refvalid < 1:
                         viol("signature-invalid:%s" % ALGN[alg], "signature does not verify under the builder's key (reference)", ev)
-                    kn = b.key[0]
+                    kn = b.key[0] if b.key and not (b.script and b.script.get("pick_key")) else None
                     if kn in octkeys:
                         dig = {1: hashlib.sha256, 3: hashlib.sha512}[alg]
                         mac = hmac.new(octkeys[kn], (parts[0] + "." + parts[1]).encode(), dig).digest()
